@@ -762,6 +762,7 @@ func run(c *core.Ctx) {
 	parallel(W, func(w int) {
 		r := core.RNG(fmt.Sprintf("c03/mixed/%d", w))
 		mixed(res, r, mixedRuns/W+1)
+		sessionEvents(res, r, 4)
 	})
 
 	// Concurrent deliveries + linearizability, plain build.
@@ -864,4 +865,120 @@ func mixed(res *core.Result, r *rand.Rand, runs int) {
 		res.Case("mixed:"+strings.Join(trace, ","), true)
 	}
 	res.Count("mixed_class_histories", int64(runs))
+}
+
+// sealTo seals one frame of the given type from `from` to `to` under session s and returns its bytes.
+func sealTo(from, to *env.Instance, s *state.Session, mt frame.MessageType) ([]byte, error) {
+	f, err := from.BuilderV.NewFrameV1(from.IdentityV.IP, to.IdentityV.IP, mt, nil, []byte("c03-events-payload"), nil)
+	if err != nil {
+		return nil, err
+	}
+	defer f.ReturnToPool()
+	if err := f.Seal(s); err != nil {
+		return nil, err
+	}
+	d, _ := f.FrameDataWithMargins(0, 0)
+	return append([]byte(nil), d...), nil
+}
+
+func unsealAt(at *env.Instance, s *state.Session, data []byte) error {
+	f, err := parse(at.BuilderV, data)
+	if err != nil {
+		return err
+	}
+	defer f.ReturnToPool()
+	return f.Unseal(s)
+}
+
+// sessionEvents: delivery histories that contain events of the session itself between deliveries - the 32-bit
+// wrap of one direction's regular counter (key rollover) with priority traffic in both directions, and key
+// setup attempts that fail (hostile key-exchange values). In-order first deliveries must be accepted (they are
+// never duplicates and never behind), every second delivery must be rejected.
+func sessionEvents(res *core.Result, r *rand.Rand, runs int) {
+	type sent struct {
+		data []byte
+		desc string
+		at   *env.Instance
+		s    *state.Session
+	}
+	for run := 0; run < runs; run++ {
+		p := newPair(r)
+		var all []sent
+		first := func(from, to *env.Instance, sf, st *state.Session, mt frame.MessageType, desc string) bool {
+			data, err := sealTo(from, to, sf, mt)
+			if err != nil {
+				res.Violate("session-events:seal-failed", fmt.Sprintf("%s: sealing failed: %v", desc, err), map[string]any{"step": desc})
+				return false
+			}
+			if err := unsealAt(to, st, data); err != nil {
+				res.Violate("session-events:fresh-frame-rejected", fmt.Sprintf("%s: a frame delivered in order, for the first time, was rejected: %v", desc, err), map[string]any{"step": desc, "case_id": "events"})
+				return false
+			}
+			all = append(all, sent{data, desc, to, st})
+			return true
+		}
+		replayAll := func(when string) bool {
+			for _, x := range all {
+				if err := unsealAt(x.at, x.s, x.data); err == nil {
+					res.Violate("session-events:frame-accepted-twice", fmt.Sprintf("%s: the frame of step '%s' unsealed a second time", when, x.desc), map[string]any{"when": when, "step": x.desc, "case_id": "events"})
+					return false
+				}
+			}
+			return true
+		}
+		ok := true
+		// traffic in both directions, both classes
+		for i := 0; i < 6 && ok; i++ {
+			ok = first(p.a, p.b, p.ab, p.ba, frame.RouterCtrl, fmt.Sprintf("A->B priority #%d", i)) &&
+				first(p.a, p.b, p.ab, p.ba, frame.SessionData, fmt.Sprintf("A->B regular #%d", i)) &&
+				first(p.b, p.a, p.ba, p.ab, frame.RouterCtrl, fmt.Sprintf("B->A priority #%d", i)) &&
+				first(p.b, p.a, p.ba, p.ab, frame.SessionData, fmt.Sprintf("B->A regular #%d", i))
+		}
+		if !ok {
+			return
+		}
+		switch run % 2 {
+		case 0:
+			// A's regular counter wraps
+			h := &state.EncryptionSessionTestHelper{EncryptionSession: p.ab.Encryption()}
+			h.ReglSetOut(0xFFFFFFFF - uint32(3+r.IntN(5)))
+			for i := 0; i < 14 && ok; i++ {
+				ok = first(p.a, p.b, p.ab, p.ba, frame.SessionData, fmt.Sprintf("A->B regular across the wrap #%d", i))
+			}
+			for i := 0; i < 8 && ok; i++ {
+				ok = first(p.a, p.b, p.ab, p.ba, frame.RouterCtrl, fmt.Sprintf("A->B priority after A's wrap #%d", i)) &&
+					first(p.b, p.a, p.ba, p.ab, frame.RouterCtrl, fmt.Sprintf("B->A priority after A's wrap #%d", i)) &&
+					first(p.b, p.a, p.ba, p.ab, frame.SessionData, fmt.Sprintf("B->A regular after A's wrap #%d", i))
+			}
+			if !ok || !replayAll("after A's regular sequence wrapped") {
+				return
+			}
+			res.Count("session_event_histories:wrap", 1)
+		default:
+			// key setup attempts with hostile key-exchange values on both sessions
+			bad := [][]byte{make([]byte, 32), {1}, nil, core.RandBytes(r, 31), core.RandBytes(r, 33), append([]byte{1}, make([]byte, 31)...)}
+			failed := 0
+			for _, s := range []*state.Session{p.ba, p.ab} {
+				for _, kx := range bad {
+					if _, _, err := s.Encryption().InitKeyServer(kx, "ECDH-X25519/BLAKE3"); err != nil {
+						failed++
+					}
+					if !replayAll(fmt.Sprintf("after a key setup request with a %d-byte hostile key-exchange value", len(kx))) {
+						return
+					}
+					if _, _, err := s.Encryption().InitKeyClientStart(); err == nil {
+						if err := s.Encryption().InitKeyClientComplete(kx, "ECDH-X25519/BLAKE3"); err != nil {
+							failed++
+						}
+					}
+					if !replayAll(fmt.Sprintf("after a key setup response with a %d-byte hostile key-exchange value", len(kx))) {
+						return
+					}
+				}
+			}
+			res.Count("session_event_histories:failed-key-setup", 1)
+			res.Count("hostile_key_setups_refused", int64(failed))
+		}
+		res.Case(fmt.Sprintf("session-events|%d|%d", run%2, run), true)
+	}
 }
